@@ -78,6 +78,25 @@ fn main() {
         println!("{}", json!({"total": total, "distinct": all.len()}));
         return;
     }
+    if cmd == "diag" {
+        // debugging aid: print front-end diagnostics and VM/WASM outputs of a source file
+        let src = std::fs::read_to_string(&pos[0]).expect("read source");
+        let n: u64 = m.get("n").and_then(|s| s.parse().ok()).unwrap_or(6);
+        let sched = m.contains_key("sched");
+        let b = runners::front::builtin_types();
+        let f = runners::front::front(&src, &b);
+        for d in f.parse_diags.iter().chain(f.type_diags.iter()) {
+            println!("DIAG {} {:?}", d.message, d.labels);
+        }
+        let inp = runners::exec::Inputs { kind: 1, scale: 1.0 };
+        let o = runners::exec::RunOpts { n, sched, want_state: true, want_counts: true };
+        if !m.contains_key("no-run") {
+            engine::panics::install_hook();
+            println!("VM   {:?}", runners::exec::run_vm(&src, &inp, &o));
+            println!("WASM {:?}", runners::exec::run_wasm(&src, &inp, &o));
+        }
+        return;
+    }
     let pid = m.get("prop").cloned().unwrap_or_default();
     let Some(prop) = props::get(&pid) else {
         eprintln!("unknown property {pid}");
